@@ -31,6 +31,26 @@ fn strip_type_names(v: &mut Value) {
         _ => {}
     }
 }
+/// every type reference of a projected definition replaced by 0 (what remains: names, type names, indices, docs, order)
+fn blank_refs(v: &mut Value) {
+    match v {
+        Value::Object(o) => {
+            if let Some(t) = o.get_mut("ty") {
+                *t = match t {
+                    Value::Array(a) => Value::Array(a.iter().map(|_| json!(0)).collect()),
+                    _ => json!(0),
+                };
+            }
+            for (k, x) in o.iter_mut() {
+                if k != "ty" {
+                    blank_refs(x);
+                }
+            }
+        }
+        Value::Array(a) => a.iter_mut().for_each(blank_refs),
+        _ => {}
+    }
+}
 pub fn t<T: TypeInfo + ?Sized + 'static>() -> String {
     tid(&meta_type::<T>()).as_str().unwrap().to_string()
 }
@@ -58,7 +78,11 @@ impl Out {
         let tid = r.register_type(&meta_type::<T>()).id;
         let p: PortableRegistry = r.into();
         let pparams: Vec<Value> = p.resolve(tid).map(|t| t.type_params.iter().map(|q| json!([q.name, q.ty.is_some()])).collect()).unwrap_or_default();
-        let ev = json!({"ev": "Derived", "id": id, "docs_feature": cfg!(feature = "docs"), "obs": obs, "ftids": ftids, "ptids": ptids, "modpath": mp, "pparams": pparams,
+        // ... and everything else of the portable form (path, names, type names, indices, docs at every level)
+        let mut pview = p.resolve(tid).map(|t| proj::body(Mode::Plain, t)).unwrap_or(Value::Null);
+        strip_type_names(&mut pview);
+        blank_refs(&mut pview);
+        let ev = json!({"ev": "Derived", "id": id, "pview": pview, "docs_feature": cfg!(feature = "docs"), "obs": obs, "ftids": ftids, "ptids": ptids, "modpath": mp, "pparams": pparams,
                         "phantom": t::<core::marker::PhantomData<()>>()});
         self.put(&ev);
         let mut fe = crate::extract::faithful_event(&[meta_type::<T>()]);
